@@ -27,9 +27,19 @@ fn compress(f_l: f64, x: f64) -> f64 {
 
 /// Step 0: quantities that depend on the viewing conditions only. `white` on the 0..100 scale, `surround` = (F, c, N_c).
 pub fn conditions(white: [f64; 3], l_a: f64, y_b: f64, surround: (f64, f64, f64)) -> Cond {
+    conditions_d(white, l_a, y_b, surround, None)
+}
+
+/// As `conditions`, with the degree of adaptation D either computed from F and L_A (the paper's formula, `None`) or set by the
+/// user (`Some(d)`: "D is set to one or another value if the illuminant is (partially) discounted" - it replaces the formula,
+/// it is not scaled by F).
+pub fn conditions_d(white: [f64; 3], l_a: f64, y_b: f64, surround: (f64, f64, f64), d_custom: Option<f64>) -> Cond {
     let (f, c, n_c) = surround;
     let rgb_w: Vec<f64> = M16.iter().map(|r| r[0] * white[0] + r[1] * white[1] + r[2] * white[2]).collect();
-    let d = (f * (1.0 - (1.0 / 3.6) * ((-l_a - 42.0) / 92.0).exp())).clamp(0.0, 1.0);
+    let d = match d_custom {
+        None => (f * (1.0 - (1.0 / 3.6) * ((-l_a - 42.0) / 92.0).exp())).clamp(0.0, 1.0),
+        Some(d) => d.clamp(0.0, 1.0),
+    };
     let d_rgb = [d * white[1] / rgb_w[0] + 1.0 - d, d * white[1] / rgb_w[1] + 1.0 - d, d * white[1] / rgb_w[2] + 1.0 - d];
     let k = 1.0 / (5.0 * l_a + 1.0);
     let f_l = 0.2 * k.powi(4) * (5.0 * l_a) + 0.1 * (1.0 - k.powi(4)).powi(2) * (5.0 * l_a).cbrt();
